@@ -372,7 +372,7 @@ def run(rep, tier):
     rep.floor("TS validator cases", ts_validator_rule(rep, us["proto/mpeg2ts.h"]), 200)
     # request line: the components returned are sub-spans of the target (rule lives in C20)
     from props import c20
-    rep.floor("target component searches", c20.span_rule(rep, us["src/proto/http.c"]), 3)
+    rep.floor("target component searches", c20.span_rule(rep, us["src/proto/http.c"]), 2)
     # fixed headers read through bit-field records: the declaration for big-endian hosts names the same wire bits as the
     # one for little-endian hosts (the validators and locators read these fields on either kind of host)
     from rules import r_bitlayout
